@@ -104,14 +104,27 @@ func Build(cfg *Cfg) *Built {
 	if len(cfg.Desc) > 0 {
 		root.Self("", FromAtoms(cfg.Desc))
 	}
-	root.SetMode(getoptions.Mode(cfg.Mode))
-	if cfg.Lower {
-		root.SetMapKeysToLower()
+	if !cfg.Late {
+		root.SetMode(getoptions.Mode(cfg.Mode))
+		if cfg.Lower {
+			root.SetMapKeysToLower()
+		}
 	}
 	b.Root = root
 	b.GOpts = make([]*getoptions.GetOpt, len(cfg.Nodes))
 	b.Ptrs = make([]interface{}, len(cfg.Opts))
 	b.defineNode(1, root)
+	if cfg.Late {
+		root.SetMode(getoptions.Mode(cfg.Mode))
+		if cfg.Lower {
+			root.SetMapKeysToLower()
+		}
+		// the root's own settings, now that the commands exist (every command was given its own explicitly)
+		root.SetUnknownMode(getoptions.UnknownMode(cfg.Nodes[0].Um))
+		if cfg.Nodes[0].Ro {
+			root.SetRequireOrder()
+		}
+	}
 	if h := cfg.HelpOpt(); h != 0 {
 		o := cfg.Opts[h-1]
 		fns := []getoptions.ModifyFn{}
@@ -133,9 +146,11 @@ func (b *Built) defineNode(n int, g *getoptions.GetOpt) {
 	if nd.Unset {
 		g.UnsetOptions()
 	}
-	g.SetUnknownMode(getoptions.UnknownMode(nd.Um))
-	if nd.Ro {
-		g.SetRequireOrder()
+	if !(b.Cfg.Late && n == 1) {
+		g.SetUnknownMode(getoptions.UnknownMode(nd.Um))
+		if nd.Ro {
+			g.SetRequireOrder()
+		}
 	}
 	if nd.Fn {
 		g.SetCommandFn(b.commandFn(n))
